@@ -816,13 +816,45 @@ def _run(pid, P, tier, seed, scratch, t0):
     hard = [i for i in inconclusive if not i.get('undecided') or (i.get('searched') or 0) < MIN_FALLBACK_REQUESTS]
     if hard:
         return 2
+    if inconclusive:
+        # accepting an undecided obligation as bounded-only further requires that the current tree still answers the recorded corpus
+        # exactly as the last fully verified tree did (golden/corpus.json): a function the verifier cannot read AND a behaviour that moved
+        # is nothing this check will call "held"
+        same, detail = golden_agrees(scratch)
+        if not same:
+            print('INCONCLUSIVE property=%s reason=%d obligation(s) undecided by the verifier this run, and %s' % (pid, len(inconclusive), detail))
+            for i_ in inconclusive[:6]:
+                print('  ' + i_['message'][:260])
+            return 2
     nb = len([o for o in obligations if o.get('bounded')])
     for i_ in inconclusive:
-        print('BOUNDED-ONLY property=%s %s — not proved this run; %d inputs of its witness families replayed on the real code, none fails'
-              % (pid, i_['message'][:260], i_.get('searched') or 0))
+        print('BOUNDED-ONLY property=%s %s — not proved this run; %d inputs of its witness families replayed on the real code, none fails, and the '
+              'recorded corpus is answered as by the last fully verified tree' % (pid, i_['message'][:260], i_.get('searched') or 0))
     print('OK property=%s obligations=%d discharged=%d undecided_bounded_only=%d bounded_standins=%d known_findings=%d wall=%.1fs' %
           (pid, n_obl - known_obl - nb, len([o for o in discharged_list if not o.get('bounded')]), len(undecided_obl), nb, known_obl, wall))
     return 0
+
+
+def golden_agrees(scratch):
+    """does the current tree answer the recorded corpus as the last fully verified tree did? (tools/gen_golden.py)"""
+    p = os.path.join(HERE, 'golden', 'corpus.json')
+    if not os.path.exists(p):
+        return False, 'no recorded corpus (golden/corpus.json) to compare the behaviour with'
+    try:
+        import gen_golden
+        want = json.load(open(p))
+        got = gen_golden.digests(REPO, scratch)
+    except Exception as ex_:
+        return False, 'the recorded corpus could not be replayed: %s' % ex_
+    if got is None:
+        return False, 'the recorded corpus could not be replayed'
+    if got['requests'] != want['requests']:
+        return False, 'the recorded corpus has %d requests, the current families give %d (regenerate golden/corpus.json on a fully verified tree)' % (want['requests'], got['requests'])
+    diff = [k for k, (a, b) in enumerate(zip(got['digests'], want['digests'])) if a != b]
+    if diff:
+        return False, ('the tree answers %d of the %d chunks of the recorded corpus (%d requests) differently from the last fully verified tree'
+                       % (len(diff), len(want['digests']), want['requests']))
+    return True, 'all %d recorded requests answered as by the last fully verified tree' % want['requests']
 
 
 def self_test(pid, scratch):
@@ -864,6 +896,8 @@ def self_test(pid, scratch):
                             ok=not flagged))
     except Exception as ex_:
         results.append(dict(case='witness-family oracles on the unchanged tree', expect='no input flagged', outcome='error: %s' % ex_, ok=False))
+    same, detail = golden_agrees(scratch)
+    results.append(dict(case='recorded corpus (golden/corpus.json) on the unchanged tree', expect='answered as recorded', outcome=detail, ok=same))
     for name, patch, expect in cases:
         work = os.path.join(scratch, 'selftest_' + re.sub(r'\W', '_', name))
         os.makedirs(work)
